@@ -7,6 +7,7 @@ import DialsModel.Model.TfSpec
 import DialsModel.Lemmas.CaseConv
 import DialsModel.Lemmas.GoIdent
 import DialsModel.Lemmas.EnvAlias
+import DialsModel.Lemmas.EnvValue
 import DialsModel.Props.C19
 
 namespace Dials.C11
@@ -192,4 +193,493 @@ theorem C11_chain_fact : Facts.chainEnv =
      ["reformat", "dials", "DecodeGoTags", "EncodeUpperSnakeCase"], ["copy", "dials", "dialsenv"], ["stringcast"]] := by
   rfl
 
+/-! ## The end-to-end value statement: what `envValue` returns for an ARBITRARY environment
+
+Vocabulary (Lemmas/EnvValue.lean): `envChain` — the env source's chain `[alias, flatten, tag reformat,
+tag copy, string cast]` (`C10_env_chain_is_shipped`: the shipped one); `EnvLayers … fs fs1 fs2 fs3 fs4 tfs`
+— the field lists between its layers (`fs1` after alias, `fs2` the flattened leaves, `fs4` the fields
+entering string cast: the leaves with their final tags, `tfs` the translated fields; they exist
+whenever TranslateType succeeds: `EnvLayers.of_translate`); `envKey pfx f` — the variable consulted for
+a field (`C11_prefix`); `envFill` — pointer to the variable's text, or unset; `envLeaf` — the parsed
+leaf value or the parse failure; `EnvTy tags t` — the condition on a config field's type: below it
+(through pointers and struct fields) no field carries an alias tag, no leaf is a slice / array of
+structs (such leaves are not string-castable; tag reformat / tag copy would recurse into them), every
+struct sits behind a pointer (Pointerify); `aliasPick` — `aliasUnmangle` on the values. -/
+
+/-- The translated value handed to ReverseTranslate is, field by field, a pointer to the text of the
+field's variable if it is present and unset otherwise (every translated field having a non-empty
+`dialsenv` tag). -/
+theorem C11_env_fill (fuel : Nat) (chain : List Mangler) (pfx : String) (fs tfs : List FT)
+    (lookup : String → Option String) (ht : translate fuel chain fs = .ok tfs)
+    (htags : ∀ f ∈ tfs, ∃ name, tagGet f.1.tags "dialsenv" = some name ∧ name ≠ "") :
+    envValue fuel chain pfx fs lookup = reverse fuel chain fs (envFill pfx lookup tfs) := by
+  rw [envValue_eq, ht]
+  simp only
+  rw [mapM'_ok_of_forall (envField pfx lookup) (envFillOne pfx lookup) tfs
+    (fun f hf => envField_ok pfx lookup f (htags f hf))]
+  rfl
+
+/-- `envFill`, spelled out: present with text `txt` ↦ `.ptr (.s txt)`, absent ↦ `.nilv` -/
+theorem C11_env_fill_spec (pfx : String) (lookup : String → Option String) (f : FT) :
+    (∀ txt, lookup (envKey pfx f) = some txt → envFillOne pfx lookup f = .ptr (.s txt)) ∧
+    (lookup (envKey pfx f) = none → envFillOne pfx lookup f = .nilv) := by
+  constructor
+  · intro txt h; simp only [envFillOne, h]
+  · intro h; simp only [envFillOne, h]
+
+/-- the value of a leaf: unset if its variable is absent, else what `parse` makes of the variable's
+text at the leaf's cast type (boxed for a pointer-to-collection leaf); total version of `envLeaf` for
+stating the success case -/
+def leafVal (pfx : String) (lookup : String → Option String) (parse : String → Ty → Outcome Val) (f : FT) : Val :=
+  match envLeaf pfx lookup parse f with
+  | .ok v => v
+  | _ => .nilv
+
+theorem C11_leafVal_spec (pfx : String) (lookup : String → Option String) (parse : String → Ty → Outcome Val)
+    (f : FT) :
+    (lookup (envKey pfx f) = none → leafVal pfx lookup parse f = .nilv) ∧
+    (∀ txt u, lookup (envKey pfx f) = some txt → parse txt (scCastTo f.2) = .ok u →
+      leafVal pfx lookup parse f = if scBoxed f.2 then .ptr u else u) := by
+  constructor
+  · intro h; simp only [leafVal, envLeaf, h]
+  · intro txt u h hp; simp only [leafVal, envLeaf, h, hp]
+
+/-- if every present variable parses, the leaf values are `leafVal` -/
+theorem leaves_ok (pfx : String) (lookup : String → Option String) (parse : String → Ty → Outcome Val)
+    (fs4 : List FT)
+    (hparse : ∀ f ∈ fs4, ∀ txt, lookup (envKey pfx f) = some txt → ∃ u, parse txt (scCastTo f.2) = .ok u) :
+    mapM' (envLeaf pfx lookup parse) fs4 = .ok (fs4.map (leafVal pfx lookup parse)) := by
+  apply mapM'_ok_of_forall
+  intro f hf
+  simp only [leafVal, envLeaf]
+  cases hl : lookup (envKey pfx f) with
+  | none => rfl
+  | some txt =>
+    obtain ⟨u, hu⟩ := hparse f hf txt hl
+    simp only [hu]
+
+/-- GENERAL FORM (top-level aliases allowed; Tier 2 for top-level fields).  For field types satisfying
+`EnvTy` (nothing aliased below the top level), enough flatten fuel, leaves with an element type and
+non-empty `dialsenv` tags: the result of the environment source is determined by the leaf values
+`envLeaf` — each leaf's OWN variable, parsed at the leaf's cast type:
+* if a leaf fails (`.err` / `.panic` of `parse` on a present variable; the first one in field order),
+  that failure is the result: never a zero or truncated value;
+* otherwise flatten populates every field of `fs1` from its own group of leaves — `w1`, whose leaves read
+  back (`flatLeaves`) are exactly the leaf values, a struct being allocated exactly when one of its
+  leaves is set — and every top-level field gets the value of its translated field, or, if it carries
+  an alias tag, `aliasPick` of the values of its primary and alias copies (`C11_alias_pick`). -/
+theorem C11_env_values_general (tags : List String) (cfg : FlattenCfg) (fuelF fuel : Nat) (tag : String)
+    (dec : List Char → Option (List (List Char))) (enc : CaseConv.Scheme) (src new : String)
+    (parse : String → Ty → Outcome Val) (pfx : String) (lookup : String → Option String)
+    (fs fs1 fs2 fs3 fs4 tfs : List FT)
+    (L : EnvLayers tags cfg fuelF fuel tag dec enc src new parse fs fs1 fs2 fs3 fs4 tfs)
+    (hty : ∀ f ∈ fs, EnvTy tags f.2) (hsz : ∀ f ∈ fs, tySize f.2 < fuelF)
+    (hel : ∀ f ∈ fs2, hasElemTy f.2 = true)
+    (htags : ∀ f ∈ tfs, ∃ name, tagGet f.1.tags "dialsenv" = some name ∧ name ≠ "") :
+    (∀ c, mapM' (envLeaf pfx lookup parse) fs4 = .err c →
+      envValue fuel (envChain tags cfg fuelF tag dec enc src new parse) pfx fs lookup = .err c) ∧
+    (∀ c, mapM' (envLeaf pfx lookup parse) fs4 = .panic c →
+      envValue fuel (envChain tags cfg fuelF tag dec enc src new parse) pfx fs lookup = .panic c) ∧
+    (∀ lv, mapM' (envLeaf pfx lookup parse) fs4 = .ok lv →
+      ∃ w1, ((fs1.zip w1).map fun p => flatLeaves fuelF p.1.2 p.2).flatten = lv ∧
+        All2 (fun o w => (flatLeaves fuelF o.2 w).length = leafN o.2 ∧
+          ((∀ x ∈ flatLeaves fuelF o.2 w, x = Val.nilv) ↔ w = .nilv)) fs1 w1 ∧
+        envValue fuel (envChain tags cfg fuelF tag dec enc src new parse) pfx fs lookup =
+          mapM' (fun (p : FT × List Val) => aliasPick p.1.1 p.1.2 p.2)
+            (fs.zip (splitCounts (fs.map (aliasCount tags)) w1))) := by
+  obtain ⟨hf1, _, _, _, e5, _, hty4⟩ := L.facts hty hsz
+  have hel4 : ∀ f ∈ fs4, hasElemTy f.2 = true := by
+    intro f hf
+    have : f.2 ∈ fs4.map (·.2) := List.mem_map_of_mem hf
+    rw [hty4] at this
+    obtain ⟨g, hg, e⟩ := List.mem_map.1 this
+    rw [← e]
+    exact hel g hg
+  rw [C11_env_fill fuel _ pfx fs tfs lookup L.translate htags]
+  obtain ⟨he, hp, hk⟩ := reverse_envChain L hty hsz (envFill pfx lookup tfs) (by simp [envFill])
+  have hsc := scUn_envFill pfx lookup parse fs4 hel4
+  rw [← e5] at hsc
+  rw [hsc] at he hp hk
+  refine ⟨he, hp, fun lv hlv => ?_⟩
+  obtain ⟨w1, hfl, hg, hr⟩ := hk lv hlv
+  refine ⟨w1, hfl, ?_, hr⟩
+  apply All2.of_mem (All2.length hg)
+  intro o w hmem
+  have ho := (hf1 o (List.of_mem_zip hmem).1).1
+  exact flattenGood_spec ho.1 ho.2 (All2.mem hg o w hmem)
+
+/-- `aliasPick` on a nil-able (pointerified) field: a single translated field passes its value; of
+primary and alias, the set one wins; both set is the error "both alias and original set". -/
+theorem C11_alias_pick (h : Hdr) (t : Ty) (ht : isNilableTy t = true) (v vp va : Val) :
+    aliasPick h t [v] = .ok v ∧
+    (vp.isNil = false → va.isNil = true → aliasPick h t [vp, va] = .ok vp) ∧
+    (vp.isNil = true → va.isNil = false → aliasPick h t [vp, va] = .ok va) ∧
+    (vp.isNil = true → va.isNil = true → aliasPick h t [vp, va] = .ok vp) ∧
+    (vp.isNil = false → va.isNil = false →
+      aliasPick h t [vp, va] = .err ("both alias and original set for field " ++ h.name)) := by
+  have hu : ∀ v, isUnsetAt t v = v.isNil := by
+    intro v
+    cases t with
+    | ptr e => exact isUnsetAt_ptr e v
+    | slice e => exact isUnsetAt_slice e v
+    | map k e => exact isUnsetAt_map k e v
+    | set k => exact isUnsetAt_set k v
+    | _ => simp [isNilableTy] at ht
+  refine ⟨rfl, ?_, ?_, ?_, ?_⟩ <;> intro h1 h2 <;> simp [aliasPick, hu, h1, h2]
+
+/-- "carries no alias tag" in terms of the tags: no `<tag>alias` key for any tag of the alias mangler -/
+theorem C11_not_aliased_iff (tags : List String) (h : Hdr) :
+    isAliased tags h = false ↔ ∀ tag ∈ tags, tagGet h.tags (tag ++ "alias") = none := by
+  simp only [isAliased, Bool.not_eq_false', List.isEmpty_iff, List.filterMap_eq_nil_iff, Option.map_eq_none_iff]
+
+/-- ERROR CHARACTERISATION.  If some present variable's text does not parse at its leaf's cast type
+(`parse txt (scCastTo t) = .err c`), the environment source never returns a value (no zero or truncated
+value is stored); it returns an error, provided `parse` panics on no present variable (if it does, the
+first failure in field order decides between `.err` and `.panic`: `C11_env_values_general`). -/
+theorem C11_env_error (tags : List String) (cfg : FlattenCfg) (fuelF fuel : Nat) (tag : String)
+    (dec : List Char → Option (List (List Char))) (enc : CaseConv.Scheme) (src new : String)
+    (parse : String → Ty → Outcome Val) (pfx : String) (lookup : String → Option String)
+    (fs fs1 fs2 fs3 fs4 tfs : List FT)
+    (L : EnvLayers tags cfg fuelF fuel tag dec enc src new parse fs fs1 fs2 fs3 fs4 tfs)
+    (hty : ∀ f ∈ fs, EnvTy tags f.2) (hsz : ∀ f ∈ fs, tySize f.2 < fuelF)
+    (hel : ∀ f ∈ fs2, hasElemTy f.2 = true)
+    (htags : ∀ f ∈ tfs, ∃ name, tagGet f.1.tags "dialsenv" = some name ∧ name ≠ "")
+    (hbad : ∃ f ∈ fs4, ∃ txt c, lookup (envKey pfx f) = some txt ∧ parse txt (scCastTo f.2) = .err c) :
+    (∀ vs, envValue fuel (envChain tags cfg fuelF tag dec enc src new parse) pfx fs lookup ≠ .ok vs) ∧
+    ((∀ f ∈ fs4, ∀ txt c, lookup (envKey pfx f) = some txt → parse txt (scCastTo f.2) ≠ .panic c) →
+      ∃ c, envValue fuel (envChain tags cfg fuelF tag dec enc src new parse) pfx fs lookup = .err c) := by
+  obtain ⟨he, hp, _⟩ := C11_env_values_general tags cfg fuelF fuel tag dec enc src new parse pfx lookup
+    fs fs1 fs2 fs3 fs4 tfs L hty hsz hel htags
+  obtain ⟨f, hf, txt, c, hl, hpe⟩ := hbad
+  have hfe : envLeaf pfx lookup parse f = .err c := by simp only [envLeaf, hl, hpe]
+  constructor
+  · intro vs hvs
+    cases hm : mapM' (envLeaf pfx lookup parse) fs4 with
+    | ok lv => exact mapM'_not_ok hf (fun b hb => by rw [hfe] at hb; cases hb) lv hm
+    | err c' => rw [he c' hm] at hvs; cases hvs
+    | panic c' => rw [hp c' hm] at hvs; cases hvs
+  · intro hnp
+    have hnp' : ∀ g ∈ fs4, ∀ c', envLeaf pfx lookup parse g ≠ .panic c' := by
+      intro g hg c' hc'
+      simp only [envLeaf] at hc'
+      cases hlg : lookup (envKey pfx g) with
+      | none => rw [hlg] at hc'; cases hc'
+      | some t' =>
+        rw [hlg] at hc'
+        simp only at hc'
+        cases hpg : parse t' (scCastTo g.2) with
+        | ok u => rw [hpg] at hc'; cases hc'
+        | err c'' => rw [hpg] at hc'; cases hc'
+        | panic c'' => exact hnp g hg t' c'' hlg hpg
+    obtain ⟨c', hc'⟩ := mapM'_err hnp' ⟨f, hf, c, hfe⟩
+    exact ⟨c', he c' hc'⟩
+
+/-- SUCCESS CHARACTERISATION WITH TOP-LEVEL ALIASES (Tier 2 for top-level fields: a top-level field of
+any `EnvTy` type — leaf or nested struct — may carry an alias tag; nothing below the top level does).
+If every present variable parses, then with the leaf values `leafVal` (absent ↦ unset, present ↦ the
+parsed value of the leaf's own variable) there are values `w1` of the alias-translated fields `fs1` —
+each populated from its own leaves, allocated exactly when one of them is set — such that every
+top-level field gets its translated field's value or, if aliased, `aliasPick` of its primary's and its
+alias copy's values: the set one, the primary's if neither is, and the error "both alias and original
+set" if both are (`C11_alias_pick`). -/
+theorem C11_env_values_alias (tags : List String) (cfg : FlattenCfg) (fuelF fuel : Nat) (tag : String)
+    (dec : List Char → Option (List (List Char))) (enc : CaseConv.Scheme) (src new : String)
+    (parse : String → Ty → Outcome Val) (pfx : String) (lookup : String → Option String)
+    (fs fs1 fs2 fs3 fs4 tfs : List FT)
+    (L : EnvLayers tags cfg fuelF fuel tag dec enc src new parse fs fs1 fs2 fs3 fs4 tfs)
+    (hty : ∀ f ∈ fs, EnvTy tags f.2) (hsz : ∀ f ∈ fs, tySize f.2 < fuelF)
+    (hel : ∀ f ∈ fs2, hasElemTy f.2 = true)
+    (htags : ∀ f ∈ tfs, ∃ name, tagGet f.1.tags "dialsenv" = some name ∧ name ≠ "")
+    (hparse : ∀ f ∈ fs4, ∀ txt, lookup (envKey pfx f) = some txt → ∃ u, parse txt (scCastTo f.2) = .ok u) :
+    ∃ w1, ((fs1.zip w1).map fun p => flatLeaves fuelF p.1.2 p.2).flatten = fs4.map (leafVal pfx lookup parse) ∧
+      All2 (fun o w => (flatLeaves fuelF o.2 w).length = leafN o.2 ∧
+        ((∀ x ∈ flatLeaves fuelF o.2 w, x = Val.nilv) ↔ w = .nilv)) fs1 w1 ∧
+      envValue fuel (envChain tags cfg fuelF tag dec enc src new parse) pfx fs lookup =
+        mapM' (fun (p : FT × List Val) => aliasPick p.1.1 p.1.2 p.2)
+          (fs.zip (splitCounts (fs.map (aliasCount tags)) w1)) :=
+  (C11_env_values_general tags cfg fuelF fuel tag dec enc src new parse pfx lookup
+    fs fs1 fs2 fs3 fs4 tfs L hty hsz hel htags).2.2 _ (leaves_ok pfx lookup parse fs4 hparse)
+
+/-- MAIN THEOREM (Tier 1: no alias tags, at any depth — `hna` for the top-level fields, `EnvTy` below
+them; the alias layer is then the identity: `fs1 = fs`).  For config field types with every struct
+behind a pointer (`EnvTy`), enough flatten fuel (`hsz`), leaves with an element type (`hel`: what
+Pointerify produces) and non-empty `dialsenv` tags on the translated fields (`htags`): if every PRESENT
+variable parses at its leaf's cast type, the environment source succeeds with values `vs` whose
+flattened leaves, field by field in flatten order, are exactly the leaf values `leafVal` — each leaf
+holds the parsed value of ITS OWN variable (boxed for a pointer-to-collection leaf), every leaf whose
+variable is absent is unset, whatever else is in the environment —, and a top-level value (hence, by
+`flatLeaves`, every intermediate struct) is allocated exactly when one of its leaves is set. -/
+theorem C11_env_values (tags : List String) (cfg : FlattenCfg) (fuelF fuel : Nat) (tag : String)
+    (dec : List Char → Option (List (List Char))) (enc : CaseConv.Scheme) (src new : String)
+    (parse : String → Ty → Outcome Val) (pfx : String) (lookup : String → Option String)
+    (fs fs1 fs2 fs3 fs4 tfs : List FT)
+    (L : EnvLayers tags cfg fuelF fuel tag dec enc src new parse fs fs1 fs2 fs3 fs4 tfs)
+    (hna : ∀ f ∈ fs, isAliased tags f.1 = false)
+    (hty : ∀ f ∈ fs, EnvTy tags f.2) (hsz : ∀ f ∈ fs, tySize f.2 < fuelF)
+    (hel : ∀ f ∈ fs2, hasElemTy f.2 = true)
+    (htags : ∀ f ∈ tfs, ∃ name, tagGet f.1.tags "dialsenv" = some name ∧ name ≠ "")
+    (hparse : ∀ f ∈ fs4, ∀ txt, lookup (envKey pfx f) = some txt → ∃ u, parse txt (scCastTo f.2) = .ok u) :
+    fs1 = fs ∧
+    ∃ vs, envValue fuel (envChain tags cfg fuelF tag dec enc src new parse) pfx fs lookup = .ok vs ∧
+      ((fs.zip vs).map fun p => flatLeaves fuelF p.1.2 p.2).flatten = fs4.map (leafVal pfx lookup parse) ∧
+      All2 (fun f v => (flatLeaves fuelF f.2 v).length = leafN f.2 ∧
+        ((∀ x ∈ flatLeaves fuelF f.2 v, x = Val.nilv) ↔ v = .nilv)) fs vs := by
+  have e1 : fs1 = fs := (alias_rec_id tags fuel).1 fs fs1 L.h1 (fun f hf => ⟨hna f hf, hty f hf⟩)
+  obtain ⟨w1, hfl, hall, hr⟩ := C11_env_values_alias tags cfg fuelF fuel tag dec enc src new parse pfx lookup
+    fs fs1 fs2 fs3 fs4 tfs L hty hsz hel htags hparse
+  subst e1
+  refine ⟨rfl, w1, ?_, hfl, hall⟩
+  rw [hr]
+  have hc : fs1.map (aliasCount tags) = List.replicate fs1.length 1 := by
+    rw [List.eq_replicate_iff]
+    refine ⟨by simp, ?_⟩
+    intro b hb
+    obtain ⟨f, hf, rfl⟩ := List.mem_map.1 hb
+    simp [aliasCount, hna f hf]
+  rw [hc, splitCounts_ones fs1.length w1 (All2.length hall), List.zip_map_right, mapM'_map]
+  have := mapM'_ok_of_forall (fun (x : FT × Val) => aliasPick (Prod.map id (fun v => [v]) x).1.1
+    (Prod.map id (fun v => [v]) x).1.2 (Prod.map id (fun v => [v]) x).2) (·.2) (fs1.zip w1) (fun p _ => rfl)
+  rw [this, map_snd_zip_eq fs1 w1 (All2.length hall)]
+
+/-! ### Non-vacuity: a concrete nested type, concrete environments, concrete results -/
+namespace Ex
+def tInt : Ty := .ptr (.basic (.int .int) false)
+def tStr : Ty := .ptr (.basic .str false)
+/-- `struct { Srv *struct { Port *int; Name *string }; Dbg *string }` (pointerified) -/
+def inner : Fields := .cons "Port" [] false tInt (.cons "Name" [] false tStr .nil)
+def fs : List FT := [(⟨"Srv", [], false⟩, .ptr (.struct inner)), (⟨"Dbg", [], false⟩, tStr)]
+/-- the same with an env alias on the top-level field `Dbg` -/
+def fsA : List FT :=
+  [(⟨"Srv", [], false⟩, .ptr (.struct inner)), (⟨"Dbg", [("dialsenvalias", "VERBOSE")], false⟩, tStr)]
+/-- parse.String (model) without scanner tokens: scalars only -/
+def parse : String → Ty → Outcome Val := parseString (fun _ => ([], []))
+def getOk (o : Outcome (List FT)) : List FT := match o with | .ok l => l | _ => []
+def tags : List String := ["dials", "dialsenv"]
+def cfg : FlattenCfg := ⟨"dials", .upperCamel, .casePreservingSnake⟩
+abbrev m1 := aliasMangler tags
+abbrev m2 := flattenMangler cfg 20
+abbrev m3 := tagReformatMangler "dials" CaseConv.decodeGoTags .upperSnake
+abbrev m4 := tagCopyMangler "dials" "dialsenv"
+abbrev m5 := stringCastMangler parse
+/-- the shipped env chain (`C10_env_chain_is_shipped`) -/
+def chain : List Mangler :=
+  envChain tags cfg 20 "dials" CaseConv.decodeGoTags .upperSnake "dials" "dialsenv" parse
+def fs1 := getOk (mangleLayer 10 m1 fs)
+def fs2 := getOk (mangleLayer 10 m2 fs1)
+def fs3 := getOk (mangleLayer 10 m3 fs2)
+def fs4 := getOk (mangleLayer 10 m4 fs3)
+def tfs := getOk (mangleLayer 10 m5 fs4)
+theorem layers : EnvLayers tags cfg 20 10 "dials" CaseConv.decodeGoTags .upperSnake "dials" "dialsenv" parse
+    fs fs1 fs2 fs3 fs4 tfs := ⟨rfl, rfl, rfl, rfl, rfl⟩
+/-- one variable present, the others absent -/
+def env1 : String → Option String := fun n => if n = "APP_SRV_PORT" then some "8080" else none
+/-- an unparsable value -/
+def env2 : String → Option String := fun n => if n = "APP_SRV_PORT" then some "80x" else none
+
+/-- the variables consulted -/
+example : envNames 10 chain "APP" fs = .ok ["APP_SRV_PORT", "APP_SRV_NAME", "APP_DBG"] := by decide
+
+/-- the flatten stage of the example: every field is populated from its own group of leaf values
+(by the generic layer lemma; `populate` is defined by well-founded recursion and does not reduce by `rfl`) -/
+theorem flattenStage (gs : List FT) (gs2 : List FT) (outss : List (List FT)) (vals : List Val)
+    (hm : mangleLayer 10 m2 gs = .ok gs2)
+    (ho : mapM' (fun (f : FT) => m2.mangle f.1 f.2) gs = .ok outss) (hl : vals.length = outss.flatten.length) :
+    unmangleLayer 10 m2 gs vals =
+      mapM' (fun (p : FT × List Val) => popUn 20 p.1.1 p.1.2 p.2)
+        (gs.zip (splitCounts (outss.map List.length) vals)) :=
+  unmangleLayer_vals (flatten_unmangle_eq cfg 20) 9 gs gs2 outss vals hm ho
+    (All2.of_mem hl (fun _ w _ _ ho' => recurseVal_noRec w (Or.inl rfl) ho'))
+
+def outss : List (List FT) := [fs2.take 2, fs2.drop 2]
+
+/-- CONCRETE RESULT, success: `APP_SRV_PORT=8080` and nothing else ⇒ `Srv = &{Port: &8080, Name: nil}`,
+`Dbg = nil` -/
+theorem ex_ok : envValue 10 chain "APP" fs env1 = .ok [.ptr (.struct [.ptr (.i 8080), .nilv]), .nilv] := by
+  have hfill : envValue 10 chain "APP" fs env1 = reverse 10 chain fs [.ptr (.s "8080"), .nilv, .nilv] := rfl
+  rw [hfill]
+  show reverse 10 [m1, m2, m3, m4, m5] fs _ = _
+  rw [reverse_cons_eq _ layers.h1, reverse_cons_eq _ layers.h2, reverse_cons_eq _ layers.h3,
+    reverse_cons_eq _ layers.h4, reverse_cons_eq _ layers.h5, reverse_nil]
+  have u5 : unmangleLayer 10 m5 fs4 [.ptr (.s "8080"), .nilv, .nilv] = .ok [.ptr (.i 8080), .nilv, .nilv] := rfl
+  have u4 : unmangleLayer 10 m4 fs3 [.ptr (.i 8080), .nilv, .nilv] = .ok [.ptr (.i 8080), .nilv, .nilv] := rfl
+  have u3 : unmangleLayer 10 m3 fs2 [.ptr (.i 8080), .nilv, .nilv] = .ok [.ptr (.i 8080), .nilv, .nilv] := rfl
+  have u2 : unmangleLayer 10 m2 fs1 [.ptr (.i 8080), .nilv, .nilv] =
+      .ok [.ptr (.struct [.ptr (.i 8080), .nilv]), .nilv] := by
+    rw [flattenStage fs1 fs2 outss _ rfl rfl rfl]
+    show mapM' (fun (p : FT × List Val) => popUn 20 p.1.1 p.1.2 p.2)
+      [((⟨"Srv", [], false⟩, Ty.ptr (.struct inner)), [Val.ptr (.i 8080), Val.nilv]),
+        ((⟨"Dbg", [], false⟩, tStr), [Val.nilv])] = _
+    simp [mapM', popUn, populate, populate.fields, stripPtrs, ptrDepth, Fields.toList, Val.isNil, wrapPtrs,
+      inner, tInt, tStr]
+  have u1 : unmangleLayer 10 m1 fs [.ptr (.struct [.ptr (.i 8080), .nilv]), .nilv] =
+      .ok [.ptr (.struct [.ptr (.i 8080), .nilv]), .nilv] := rfl
+  simp only [u5, u4, u3, u2, u1]
+
+/-- CONCRETE RESULT, error: `APP_SRV_PORT=80x` is an error (strconv's syntax error), not a zero value -/
+theorem ex_err : envValue 10 chain "APP" fs env2 = .err "number" := by
+  have hfill : envValue 10 chain "APP" fs env2 = reverse 10 chain fs [.ptr (.s "80x"), .nilv, .nilv] := rfl
+  rw [hfill]
+  show reverse 10 [m1, m2, m3, m4, m5] fs _ = _
+  rw [reverse_cons_eq _ layers.h1, reverse_cons_eq _ layers.h2, reverse_cons_eq _ layers.h3,
+    reverse_cons_eq _ layers.h4, reverse_cons_eq _ layers.h5, reverse_nil]
+  have u5 : unmangleLayer 10 m5 fs4 [.ptr (.s "80x"), .nilv, .nilv] = .err "number" := rfl
+  simp only [u5]
+
+/-! the hypotheses of `C11_env_values` / `C11_env_error` hold for this type -/
+theorem hna : ∀ f ∈ fs, isAliased tags f.1 = false := by decide
+theorem hty : ∀ f ∈ fs, EnvTy tags f.2 := by
+  intro f hf
+  simp only [fs, List.mem_cons, List.not_mem_nil, or_false] at hf
+  rcases hf with rfl | rfl <;> exact ⟨by decide, by decide⟩
+theorem hsz : ∀ f ∈ fs, tySize f.2 < 20 := by decide
+theorem hel : ∀ f ∈ fs2, hasElemTy f.2 = true := by decide
+theorem htags : ∀ f ∈ tfs, ∃ name, tagGet f.1.tags "dialsenv" = some name ∧ name ≠ "" := by
+  have h : ∀ f ∈ tfs, (match tagGet f.1.tags "dialsenv" with | some n => n != "" | none => false) = true := by
+    decide
+  intro f hf
+  have := h f hf
+  split at this
+  · rename_i n hn
+    exact ⟨n, hn, by simpa using this⟩
+  · cases this
+
+/-- the leaves: variable looked up, leaf type -/
+theorem leaves1 : fs4.map (fun f => (env1 (envKey "APP" f), f.2)) =
+    [(some "8080", tInt), (none, tStr), (none, tStr)] := rfl
+theorem leaves2 : fs4.map (fun f => (env2 (envKey "APP" f), f.2)) =
+    [(some "80x", tInt), (none, tStr), (none, tStr)] := rfl
+
+theorem hparse1 : ∀ f ∈ fs4, ∀ txt, env1 (envKey "APP" f) = some txt → ∃ u, parse txt (scCastTo f.2) = .ok u := by
+  intro f hf txt hl
+  have hm : (env1 (envKey "APP" f), f.2) ∈ fs4.map (fun f => (env1 (envKey "APP" f), f.2)) :=
+    List.mem_map_of_mem (f := fun f => (env1 (envKey "APP" f), f.2)) hf
+  rw [leaves1, hl] at hm
+  simp only [List.mem_cons, Prod.mk.injEq, List.not_mem_nil, or_false] at hm
+  rcases hm with ⟨h1, h2⟩ | ⟨h1, _⟩ | ⟨h1, _⟩
+  · injection h1 with h1
+    subst h1
+    rw [h2]
+    exact ⟨.ptr (.i 8080), rfl⟩
+  · cases h1
+  · cases h1
+
+/-- `C11_env_values` applies: all its hypotheses hold here (and its conclusion agrees with `ex_ok`) -/
+example : ∃ vs, envValue 10 chain "APP" fs env1 = .ok vs ∧
+    ((fs.zip vs).map fun p => flatLeaves 20 p.1.2 p.2).flatten = fs4.map (leafVal "APP" env1 parse) ∧
+    fs4.map (leafVal "APP" env1 parse) = [.ptr (.i 8080), .nilv, .nilv] := by
+  obtain ⟨_, vs, h1, h2, _⟩ := C11_env_values tags cfg 20 10 "dials" CaseConv.decodeGoTags .upperSnake "dials" "dialsenv"
+    parse "APP" env1 fs fs1 fs2 fs3 fs4 tfs layers hna hty hsz hel htags hparse1
+  exact ⟨vs, h1, h2, rfl⟩
+
+/-- `C11_env_error` applies to the unparsable value -/
+example : ∃ c, envValue 10 chain "APP" fs env2 = .err c := by
+  have hbad : ∃ f ∈ fs4, ∃ txt c, env2 (envKey "APP" f) = some txt ∧ parse txt (scCastTo f.2) = .err c :=
+    ⟨fs4[0], List.getElem_mem _, "80x", "number", rfl, rfl⟩
+  refine (C11_env_error tags cfg 20 10 "dials" CaseConv.decodeGoTags .upperSnake "dials" "dialsenv"
+    parse "APP" env2 fs fs1 fs2 fs3 fs4 tfs layers hty hsz hel htags hbad).2 ?_
+  intro f hf txt c hl hp
+  have hm : (env2 (envKey "APP" f), f.2) ∈ fs4.map (fun f => (env2 (envKey "APP" f), f.2)) :=
+    List.mem_map_of_mem (f := fun f => (env2 (envKey "APP" f), f.2)) hf
+  rw [leaves2, hl] at hm
+  simp only [List.mem_cons, Prod.mk.injEq, List.not_mem_nil, or_false] at hm
+  rcases hm with ⟨h1, h2⟩ | ⟨h1, _⟩ | ⟨h1, _⟩
+  · injection h1 with h1
+    subst h1
+    rw [h2] at hp
+    cases hp
+  · cases h1
+  · cases h1
+
+/-! #### a top-level alias: `Dbg *string` with `dialsenvalias:"VERBOSE"` -/
+def fsA1 := getOk (mangleLayer 10 m1 fsA)
+def fsA2 := getOk (mangleLayer 10 m2 fsA1)
+def fsA3 := getOk (mangleLayer 10 m3 fsA2)
+def fsA4 := getOk (mangleLayer 10 m4 fsA3)
+def tfsA := getOk (mangleLayer 10 m5 fsA4)
+theorem layersA : EnvLayers tags cfg 20 10 "dials" CaseConv.decodeGoTags .upperSnake "dials" "dialsenv" parse
+    fsA fsA1 fsA2 fsA3 fsA4 tfsA := ⟨rfl, rfl, rfl, rfl, rfl⟩
+def outssA : List (List FT) :=
+  match mapM' (fun (f : FT) => m2.mangle f.1 f.2) fsA1 with | .ok l => l | _ => []
+
+/-- the alias copy answers to the alias name only -/
+example : envNames 10 chain "APP" fsA = .ok ["APP_SRV_PORT", "APP_SRV_NAME", "APP_DBG", "APP_VERBOSE"] := by decide
+
+/-- only the alias variable is present -/
+def envA1 : String → Option String := fun n => if n = "APP_VERBOSE" then some "yes" else none
+/-- primary and alias variable are both present -/
+def envA2 : String → Option String := fun n => if n = "APP_VERBOSE" ∨ n = "APP_DBG" then some "yes" else none
+
+theorem popStage (l : List (FT × List Val)) :
+    mapM' (fun (p : FT × List Val) => popUn 20 p.1.1 p.1.2 p.2) l =
+      mapM' (fun (q : Ty × List Val) => popUn 20 ⟨"", [], false⟩ q.1 q.2) (l.map fun p => (p.1.2, p.2)) := by
+  rw [mapM'_map]; rfl
+
+/-- the flatten stage on the alias-translated fields `Srv`, `Dbg`, `Dbg_alias…` -/
+theorem flattenStageA (c d : Val) :
+    unmangleLayer 10 m2 fsA1 [.nilv, .nilv, c, d] = .ok [.nilv, c, d] := by
+  rw [flattenStage fsA1 fsA2 outssA _ rfl rfl rfl, popStage]
+  show mapM' (fun (q : Ty × List Val) => popUn 20 ⟨"", [], false⟩ q.1 q.2)
+    [(Ty.ptr (.struct inner), [Val.nilv, Val.nilv]), (tStr, [c]), (tStr, [d])] = _
+  simp [mapM', popUn, populate, populate.fields, stripPtrs, Fields.toList, Val.isNil, inner, tInt, tStr]
+
+/-- CONCRETE RESULT: the alias variable alone sets the field -/
+theorem exA_alias_only : envValue 10 chain "APP" fsA envA1 = .ok [.nilv, .ptr (.s "yes")] := by
+  have hfill : envValue 10 chain "APP" fsA envA1 = reverse 10 chain fsA [.nilv, .nilv, .nilv, .ptr (.s "yes")] := rfl
+  rw [hfill]
+  show reverse 10 [m1, m2, m3, m4, m5] fsA _ = _
+  rw [reverse_cons_eq _ layersA.h1, reverse_cons_eq _ layersA.h2, reverse_cons_eq _ layersA.h3,
+    reverse_cons_eq _ layersA.h4, reverse_cons_eq _ layersA.h5, reverse_nil]
+  have u5 : unmangleLayer 10 m5 fsA4 [.nilv, .nilv, .nilv, .ptr (.s "yes")] =
+      .ok [.nilv, .nilv, .nilv, .ptr (.s "yes")] := rfl
+  have u4 : unmangleLayer 10 m4 fsA3 [.nilv, .nilv, .nilv, .ptr (.s "yes")] =
+      .ok [.nilv, .nilv, .nilv, .ptr (.s "yes")] := rfl
+  have u3 : unmangleLayer 10 m3 fsA2 [.nilv, .nilv, .nilv, .ptr (.s "yes")] =
+      .ok [.nilv, .nilv, .nilv, .ptr (.s "yes")] := rfl
+  have u2 := flattenStageA .nilv (.ptr (.s "yes"))
+  have u1 : unmangleLayer 10 m1 fsA [.nilv, .nilv, .ptr (.s "yes")] = .ok [.nilv, .ptr (.s "yes")] := rfl
+  simp only [u5, u4, u3, u2, u1]
+
+/-- CONCRETE RESULT: primary and alias variable both present is an error -/
+theorem exA_both : envValue 10 chain "APP" fsA envA2 = .err "both alias and original set for field Dbg" := by
+  have hfill : envValue 10 chain "APP" fsA envA2 =
+      reverse 10 chain fsA [.nilv, .nilv, .ptr (.s "yes"), .ptr (.s "yes")] := rfl
+  rw [hfill]
+  show reverse 10 [m1, m2, m3, m4, m5] fsA _ = _
+  rw [reverse_cons_eq _ layersA.h1, reverse_cons_eq _ layersA.h2, reverse_cons_eq _ layersA.h3,
+    reverse_cons_eq _ layersA.h4, reverse_cons_eq _ layersA.h5, reverse_nil]
+  have u5 : unmangleLayer 10 m5 fsA4 [.nilv, .nilv, .ptr (.s "yes"), .ptr (.s "yes")] =
+      .ok [.nilv, .nilv, .ptr (.s "yes"), .ptr (.s "yes")] := rfl
+  have u4 : unmangleLayer 10 m4 fsA3 [.nilv, .nilv, .ptr (.s "yes"), .ptr (.s "yes")] =
+      .ok [.nilv, .nilv, .ptr (.s "yes"), .ptr (.s "yes")] := rfl
+  have u3 : unmangleLayer 10 m3 fsA2 [.nilv, .nilv, .ptr (.s "yes"), .ptr (.s "yes")] =
+      .ok [.nilv, .nilv, .ptr (.s "yes"), .ptr (.s "yes")] := rfl
+  have u2 := flattenStageA (.ptr (.s "yes")) (.ptr (.s "yes"))
+  have u1 : unmangleLayer 10 m1 fsA [.nilv, .ptr (.s "yes"), .ptr (.s "yes")] =
+      .err "both alias and original set for field Dbg" := rfl
+  simp only [u5, u4, u3, u2, u1]
+
+/-- the type hypotheses of `C11_env_values_alias` / `C11_env_values_general` hold for the aliased type -/
+theorem htyA : ∀ f ∈ fsA, EnvTy tags f.2 := by
+  intro f hf
+  simp only [fsA, List.mem_cons, List.not_mem_nil, or_false] at hf
+  rcases hf with rfl | rfl <;> exact ⟨by decide, by decide⟩
+theorem hszA : ∀ f ∈ fsA, tySize f.2 < 20 := by decide
+theorem helA : ∀ f ∈ fsA2, hasElemTy f.2 = true := by decide
+theorem htagsA : ∀ f ∈ tfsA, ∃ name, tagGet f.1.tags "dialsenv" = some name ∧ name ≠ "" := by
+  have h : ∀ f ∈ tfsA, (match tagGet f.1.tags "dialsenv" with | some n => n != "" | none => false) = true := by
+    decide
+  intro f hf
+  have := h f hf
+  split at this
+  · rename_i n hn
+    exact ⟨n, hn, by simpa using this⟩
+  · cases this
+
+/-- `C11_env_values_general` applies to the aliased type (any environment): a result is never `.ok`
+unless every present variable parses -/
+example (lookup : String → Option String) (c : String)
+    (h : mapM' (envLeaf "APP" lookup parse) fsA4 = .err c) : envValue 10 chain "APP" fsA lookup = .err c :=
+  (C11_env_values_general tags cfg 20 10 "dials" CaseConv.decodeGoTags .upperSnake "dials" "dialsenv"
+    parse "APP" lookup fsA fsA1 fsA2 fsA3 fsA4 tfsA layersA htyA hszA helA htagsA).1 c h
+end Ex
 end Dials.C11
